@@ -1057,6 +1057,11 @@ Qed.
 Lemma remove_listener_frame_unsub A B m k : frame_unsub A B m -> frame_unsub A B (remove_listener m k).
 Proof. intros H. unfold remove_listener. destruct (listeners (ms m) !! k); exact H. Qed.
 
+Definition frame_conns (C : gmap conn cstate) (m : M) : Prop := conns (ms m) = C.
+
+Lemma remove_object_frame_conns C m k : frame_conns C m -> oprop (frame_conns C) (remove_object m k).
+Proof. intros H. unfold remove_object, remove_service. repeat prop_step leaf_conv. Qed.
+
 Definition svc_drop_subs (c : conn) (sv : svc) : svc := sv <| s_subs ::= fun x => x ∖ {[c]} |>.
 
 (* C04_transitions on disconnect: when connection [c] is removed, then — in the state [m3] where
@@ -1089,12 +1094,12 @@ Proof.
   clearbody m2. destruct F2 as [F2 C2].
   destruct (foldO remove_object _ m2) as [m3|m3|] eqn:E3; cbn [andThen]; try discriminate.
   assert (F3 : frame_unsub (w_unsub_ev (mw m)) (w_unsub_all (mw m)) m3 /\ conns (ms m3) = conns (ms m2)).
-  { pose proof (oprop_foldO (fun x => frame_unsub (w_unsub_ev (mw m)) (w_unsub_all (mw m)) x /\ conns (ms x) = conns (ms m2))
-                  remove_object _ m2) as H. rewrite E3 in H. apply H; [|auto].
+  { match type of E3 with foldO ?f ?l ?mm = _ =>
+      pose proof (oprop_foldO (fun x => frame_unsub (w_unsub_ev (mw m)) (w_unsub_all (mw m)) x /\ conns (ms x) = conns (ms m2))
+                  f l mm) as H end. rewrite E3 in H. apply H; [|auto].
     intros x k [Hx1 Hx2].
     assert (G1 := remove_object_frame_unsub _ _ x k Hx1).
-    assert (G2 : oprop (fun y => conns (ms y) = conns (ms m2)) (remove_object x k)).
-    { unfold remove_object, remove_service. repeat prop_step leaf_conv. }
+    assert (G2 := remove_object_frame_conns _ x k Hx2).
     destruct (remove_object x k); cbn in *; auto. }
   destruct F3 as [F3 C3].
   destruct (unsub_events_pass c m3) as [m4|m4|] eqn:E4; cbn [andThen]; try discriminate.
@@ -1122,7 +1127,7 @@ Proof.
   assert (F9 : frame_unsub A B (foldr (fun (p : N * (N * conn)) (m : M) => m <| mw; w_abort ::= cons p.2 |>) m8 (map_to_list (cs_calls cs)))).
   { apply (prop_foldr (frame_unsub A B)); [|exact F8]. intros x a Hx. exact Hx. }
   destruct F9 as [F9a F9b]. destruct F3 as [F3a F3b].
-  exists m3, m4, m5. split; [congruence|]. split; [reflexivity|]. split; [reflexivity|].
+  exists m3, m4, m5. split; [congruence|]. split; [exact E4|]. split; [exact E5|].
   split; [|split; [|split; assumption]].
   - cbn. rewrite F9a. subst A. rewrite W4, F3a. reflexivity.
   - cbn. rewrite F9b. subst B. rewrite W5. f_equal. rewrite Fr4. cbn. exact F3b.
